@@ -31,7 +31,12 @@ CORR_ONLY = ["Time_Display at floor knife-edges of the double arithmetic (a floo
 ASSUMPTIONS = ["std::to_string(int) is the decimal representation with a leading '-' for negative values; std::floor/int conversion exact for |t| < 2^31",
                "ostream << double with default flags is %g with precision 6, correctly rounded (ties of exactly representable decimals to even); istream >> double reads a white-space delimited decimal token, correctly rounded",
                "a compiler folds initialisers built from literals, M_PI, + - * / and earlier constant-initialised names (checked per build with nm); pow()/sqrt() calls are treated as dynamic (g++ folds them, clang++ does not)",
-               "generated values keep a relative margin 2^-40 from six-digit rounding boundaries unless the double division x/u is exact"]
+               "round-trip clause (Export_List/Export_Table -> Import_*): values and unit factors are drawn from the stated ranges (600 decades x 60 decades) WITHOUT filtering the "
+               "quotient x/u; only 0 with a negative unit is avoided (written as '-0', outside the exact-rational model). The bytes are compared with the model unless the exact quotient is "
+               "within 2^-40 of a six-digit rounding boundary (the double division decides: excused, counted) or outside the normal double range (oracle only: known defect 9). "
+               "The other families (single values, Export_Function, size-targeted headers, In_Units with rounding) keep the 2^-40 margin by construction",
+               "round-trip bound: half a unit of the sixth significant digit of x/u + 2^-50 |x/u| (double division and multiplication); Log_Space abscissae of Export_Function: 2^-36 (exp/log)",
+               "In_Units undo: 3 eps; derived-unit identities and definitions on a build's own constants: 4 eps in every build"]
 TRUSTED = ["translators/units.py (regenerates lean/LpModel/C20/Generated.lean from src/Natural_Units.cpp before every lake build; cross-checked by the values read in the separately compiled builds)",
            "mpmath for sqrt / pi / non-integer pow on the comparison side"]
 
@@ -89,7 +94,7 @@ def safe_round(x, u, d):
     return dist > s / 2 ** 40
 
 
-def six_digit_ok(v, x, u, slack_bits=45):
+def six_digit_ok(v, x, u, slack_bits=50):
     """|v/u - x/u| <= half a unit of the sixth significant digit of x/u (plus double rounding)"""
     if isinstance(v, float) and (math.isnan(v) or math.isinf(v)):
         return False
@@ -237,6 +242,44 @@ def gen_safe(rng, u, kind=None):
     return 1.0 * u if safe6(1.0 * u, u) else 0.0
 
 
+def gen_rt(rng, u):
+    """a value of the stated domain (600 decades, either sign, integers, fractions) for the round-trip clause: NOT filtered by the
+    size of the quotient x/u nor by rounding margins; only 0 with a negative unit is avoided (it is written as "-0")"""
+    for _ in range(20):
+        x = gen_value(rng)
+        if x != 0 or u > 0:
+            return x
+    return 1.0
+
+
+def gen_table_rt(rng, r, c, us):
+    return [[gen_rt(rng, us[j] if us else 1.0) for j in range(c)] for _ in range(r)]
+
+
+def quotient_oor(x, u):
+    """the quotient x/u is not a normal double: overflow (> DBL_MAX) or below 2^-1022 (subnormal or zero)"""
+    if x == 0:
+        return False
+    q = abs(Fraction(x) / Fraction(u))
+    return q >= Fraction(2) ** 1024 - Fraction(2) ** 970 or q < Fraction(1, 2 ** 1022)
+
+
+OOR_CLAUSE = "round trip fails for a quotient x/u outside the normal double range (|x/u| > DBL_MAX is written as inf and truncates the import; a subnormal x/u loses digits)"
+
+
+def relabel_oor(out, oor_entries):
+    """prop failures of a request that contains an out-of-range quotient are reported under one clause (defect 9)"""
+    if not oor_entries:
+        return out
+    res = []
+    for f in out:
+        if f["kind"] == "prop":
+            x, u = oor_entries[0]
+            f = fail("prop", OOR_CLAUSE, "quotient outside the double range: %r / %r; %s: %s" % (x, u, f["clause"], f["detail"]))
+        res.append(f)
+    return res
+
+
 def gen_table(rng, r, c, us):
     return [[gen_safe(rng, us[j] if us else 1.0) for j in range(c)] for _ in range(r)]
 
@@ -312,7 +355,7 @@ def generate(tier, seed, ctx):
     for k in range(200 if thorough else 50):
         n = rng.choice([0, 1, 2, 3]) if k % 8 == 0 else rng.randint(1, 200 if thorough else 60)
         u = gen_unit(rng)
-        xs = [gen_safe(rng, u) for _ in range(n)]
+        xs = [gen_rt(rng, u) for _ in range(n)]
         R.append("c20.rtlist %s %s %s" % (enhex(rng.choice(HEADERS)), hx(u), lst(xs)))
     # --- table round trips -----------------------------------------------------------------------------
     shapes = []
@@ -325,7 +368,24 @@ def generate(tier, seed, ctx):
         shapes += [(rng.randint(41, 200), rng.randint(1, 12)) for _ in range(4)]
     for (r, c) in shapes:
         us = [] if rng.random() < 0.3 else [gen_unit(rng) for _ in range(c)]
-        R.append("c20.rttable %s %s %s" % (enhex(rng.choice(HEADERS)), lst(us), tbl(gen_table(rng, r, c, us))))
+        R.append("c20.rttable %s %s %s" % (enhex(rng.choice(HEADERS)), lst(us), tbl(gen_table_rt(rng, r, c, us))))
+    # corners of the stated domain: large values with small unit factors (quotient beyond DBL_MAX) and small values with large
+    # unit factors (subnormal quotient) - inside "600 decades x 60 decades"
+    for k in range(24 if thorough else 8):
+        big = k % 2 == 0
+        x = rng.choice([-1, 1]) * rng.uniform(1, 9.99) * 10.0 ** (rng.randint(285, 299) if big else -rng.randint(285, 299))
+        u = rng.uniform(1, 9.99) * 10.0 ** (-rng.randint(15, 30) if big else rng.randint(15, 30))
+        if k % 4 < 2:
+            xs = [gen_rt(rng, u) for _ in range(rng.randint(0, 3))] + [x] + [gen_rt(rng, u) for _ in range(rng.randint(1, 3))]
+            R.append("c20.rtlist %s %s %s" % (enhex(rng.choice(HEADERS)), hx(u), lst(xs)))
+        else:
+            r, c = rng.randint(1, 4), rng.randint(1, 4)
+            us = [gen_unit(rng) for _ in range(c)]
+            jc = rng.randrange(c)
+            us[jc] = u
+            t = gen_table_rt(rng, r, c, us)
+            t[rng.randrange(r)][jc] = x
+            R.append("c20.rttable %s %s %s" % (enhex(rng.choice(HEADERS)), lst(us), tbl(t)))
     R += size_targeted(rng, thorough)
     for k in range(60 if thorough else 24):   # guards, ragged rows, empty rows
         r, c = rng.randint(1, 6), rng.randint(1, 5)
@@ -767,6 +827,11 @@ def compare(rq, impl, model, ctx):
                 if not six_digit_ok(v, x, u):
                     out.append(fail("prop", "list entry read back differs in the first six significant digits", "[%d] %r -> %r (unit %r)" % (k_, x, v, u)))
                     break
+        oor = [(x, u) for x in xs if quotient_oor(x, u)]
+        if oor:
+            # IEEE overflow / underflow of the quotient is outside the exact-rational model: oracle only
+            bump(ctx, "requests with a quotient outside the double range")
+            return relabel_oor(out, oor)
         hl_ = h.count("\n") + 1 if h else 0
         cmp_bytes(bi, bm, hl_, lambda i, j: (xs[i], u) if i < len(xs) and j == 0 else None, "Export_List", out, ctx)
         if ti[1] != tm[1]:
@@ -785,11 +850,15 @@ def compare(rq, impl, model, ctx):
                 bump(ctx, "file size multiple of %d" % B_)
                 ctx["nontrivial"].add(("rttable-size", B_, len(bi) // B_))
         nonempty = [r for r in t if r]
-        cmp_bytes(bi, bm, hl_, lambda i, j: (nonempty[i][j], us[j] if us else 1.0) if i < len(nonempty) and j < len(nonempty[i]) else None,
-                  "Export_Table", out, ctx)
+        oor = [(x, us[j] if us else 1.0) for row in t for j, x in enumerate(row) if j < (len(us) if us else len(row)) and quotient_oor(x, us[j] if us else 1.0)]
+        if oor:
+            bump(ctx, "requests with a quotient outside the double range")
+        if not oor:
+            cmp_bytes(bi, bm, hl_, lambda i, j: (nonempty[i][j], us[j] if us else 1.0) if i < len(nonempty) and j < len(nonempty[i]) else None,
+                      "Export_Table", out, ctx)
         if ti[1] != tm[1]:
             out.append(fail("corr", "Count_Lines of the exported table", "impl %s model %s" % (ti[1], tm[1])))
-        if tm[2] != "glue1" or tm[3] != "tl1":
+        if not oor and (tm[2] != "glue1" or tm[3] != "tl1"):
             out.append(fail("corr", "model-internal: character level and token level disagree", " ".join(tm[2:4])))
         rect = len(t) >= 1 and len(t[0]) >= 1 and all(len(r) == len(t[0]) for r in t)
         im_i, im_m = ti[2:], tm[4:]
@@ -797,6 +866,7 @@ def compare(rq, impl, model, ctx):
             oi = " ".join(im_i)[7:]
             if rect:
                 out.append(fail("prop", "Import_Table of an exported table with the number of header lines written stops or crashes", oi))
+                return relabel_oor(out, oor)
             elif im_m[0] == "err" and oi != "err":
                 out.append(fail("prop", "meaningless import did not stop with a diagnostic", oi))
             elif im_m[0] not in ("err", "undef"):
@@ -814,6 +884,8 @@ def compare(rq, impl, model, ctx):
                         out.append(fail("prop", "table entry read back differs in the first six significant digits",
                                         "[%d][%d] %r -> %r (unit %r)" % (i, j, tr[j], rr[j], us[j] if us else 1.0)))
                         break
+        if oor:
+            return relabel_oor([f for f in out if f["kind"] == "prop"], oor)
         if im_m[0] in ("err", "undef"):
             if im_m[0] == "err":
                 out.append(fail("corr", "Import_Table outcome", "impl ok model err"))
@@ -839,7 +911,7 @@ def compare(rq, impl, model, ctx):
     if op == "c20.inunits":
         x, u, rnd, d = fl(a[0]), fl(a[1]), int(a[2]), int(a[3])
         v, m = fl(ti[0]), fr(tm[0])
-        if not rnd and x != 0 and not close(v * u, Fraction(x), Fraction(x), 8):
+        if not rnd and x != 0 and not close(v * u, Fraction(x), Fraction(x), 3):
             out.append(fail("prop", "In_Units does not undo multiplication by the unit", "In_Units(%r,%r)=%r" % (x, u, v)))
         if rnd:
             round_oracle(out, [v], [x], [u], d, "scalar")
@@ -853,7 +925,7 @@ def compare(rq, impl, model, ctx):
         lm, _ = read_list(tm, fr)
         if len(li) != len(xs):
             out.append(fail("prop", "In_Units changes the length of a list/vector", "%d -> %d" % (len(xs), len(li))))
-        elif not rnd and any(x != 0 and not close(v * u, Fraction(x), Fraction(x), 8) for v, x in zip(li, xs)):
+        elif not rnd and any(x != 0 and not close(v * u, Fraction(x), Fraction(x), 3) for v, x in zip(li, xs)):
             out.append(fail("prop", "In_Units (list/vector) does not undo multiplication by the unit", ""))
         elif rnd:
             round_oracle(out, li, xs, [u] * len(xs), d, "vector<double>" if op == "c20.inunitsL" else "Vector")
@@ -877,7 +949,7 @@ def compare(rq, impl, model, ctx):
             for rr, tr in zip(ri, t):
                 for j, (v, x) in enumerate(zip(rr, tr)):
                     uu = us[j] if us is not None else u
-                    if x != 0 and not close(v * uu, Fraction(x), Fraction(x), 8):
+                    if x != 0 and not close(v * uu, Fraction(x), Fraction(x), 3):
                         out.append(fail("prop", "In_Units (table/matrix) does not undo multiplication by the unit", "%r / %r -> %r" % (x, uu, v)))
                         break
         else:
@@ -1359,7 +1431,7 @@ def py_identities(ctx):
                 out.append(fail("prop", "derived unit differs from its defining product of base constants (build %s)" % b,
                                 "%s: an ingredient is missing or zero" % lhs))
                 continue
-            if l == 0 or abs(l - rhs) > 32 * EPS * abs(rhs):
+            if l == 0 or abs(l - rhs) > 4 * EPS * abs(rhs):
                 out.append(fail("prop", "derived unit differs from its defining product of base constants (build %s)" % b,
                                 "%s = %r, product = %r" % (lhs, float(l), float(rhs))))
     return out
@@ -1454,7 +1526,7 @@ def compare_units(op, a, model, ctx):
                 continue
             if lhs not in vals:
                 continue
-            if not rel_close(vals[lhs], rhs, 32) or vals[lhs] == 0:
+            if not rel_close(vals[lhs], rhs, 4) or vals[lhs] == 0:
                 out.append(fail("prop", "derived unit differs from its defining product of base constants (build %s)" % b,
                                 "%s = %r, %s = %r" % (lhs, vals[lhs], " ".join(expr), float(rhs))))
             ctx["nontrivial"].add(("ident", lhs, " ".join(expr)[:40], b))
@@ -1521,7 +1593,7 @@ def py_definition_check(name, ctx):
             rhs = eval_tr(e, vals)
         except (KeyError, ZeroDivisionError):
             continue
-        if not rel_close(v, rhs, K_VAL):
+        if not rel_close(v, rhs, 4):
             import mpmath
             out.append(fail("prop", "derived unit differs from its defining product of base constants (build %s)" % b,
                             "%s = %r in the %s build, its defining expression on that build's constants = %s" % (
@@ -1550,6 +1622,7 @@ def oracle_only(rq, impl, ctx):
             li, _ = read_list(ti[2:], fl)
             if len(li) != len(xs) or any(not six_digit_ok(v, x, u) for v, x in zip(li, xs)):
                 out.append(fail("prop", "list read back differs in length or in the first six significant digits", ""))
+            out = relabel_oor(out, [(x, u) for x in xs if quotient_oor(x, u)])
         elif op == "c20.rttable":
             us, rest = read_list(a[1:], fl)
             t, _ = read_table(rest, fl)
@@ -1559,6 +1632,8 @@ def oracle_only(rq, impl, ctx):
                 if [len(r) for r in ri] != [len(r) for r in t] or any(
                         not six_digit_ok(v, x, us[j] if us else 1.0) for rr, tr in zip(ri, t) for j, (v, x) in enumerate(zip(rr, tr))):
                     out.append(fail("prop", "table read back differs in shape or in the first six significant digits", ""))
+            out = relabel_oor(out, [(x, us[j] if us else 1.0) for row in t for j, x in enumerate(row)
+                                    if j < (len(us) if us else len(row)) and quotient_oor(x, us[j] if us else 1.0)])
     except Exception:
         pass
     return out
